@@ -32,7 +32,7 @@ ASSUMPTIONS = [
 METRICS = ["mae", "bias", "rmse", "corr", "obs", "fcst", "ets", "hit", "far", "threat", "n", "stderror"]
 CONT = ["ets", "hit", "far", "threat", "n"]
 AGG_OK = ["mae", "bias", "rmse", "obs", "fcst"]
-AGGS = ["mean", "median", "min", "max", "std", "range", "count", "sum", "0.5", "0.9", "meanabs"]
+AGGS = ["mean", "median", "min", "max", "std", "range", "count", "sum", "0.5", "0.9", "meanabs", "0.975", "0.125"]
 
 
 # ------------------------------------------------------------------------------------------
